@@ -18,6 +18,7 @@ pub fn enumerate(req: &Req) -> R<String> {
 	let k = req.usize("k")?;
 	let grid = req.u64("grid")?;
 	let draws = req.usize("draws")?;
+	let hint = req.opt("hint");
 	if grid == 0 || (grid as f64).powi(draws as i32) > 5e7 {
 		return Err(Bad);
 	}
@@ -47,7 +48,11 @@ pub fn enumerate(req: &Req) -> R<String> {
 			}
 			"multi" => {
 				let mut buf = vec![u64::MAX; k];
-				match with_mock(&words, |r| r.multiple(items.iter().copied(), &mut buf[..])) {
+				let res = match hint {
+					None => with_mock(&words, |r| r.multiple(items.iter().copied(), &mut buf[..])),
+					h => with_mock(&words, |r| r.multiple(crate::distr::hinted(&items, h), &mut buf[..])),
+				};
+				match res {
 					Some((cnt, _)) => {
 						let mut s: Vec<u64> = buf[..cnt].to_vec();
 						s.sort();
@@ -61,7 +66,10 @@ pub fn enumerate(req: &Req) -> R<String> {
 				Some((None, _)) => "none".into(),
 				None => "panic".into(),
 			},
-			"single" => match with_mock(&words, |r| r.single(items.iter().copied())) {
+			"single" => match match hint {
+				None => with_mock(&words, |r| r.single(items.iter().copied())),
+				h => with_mock(&words, |r| r.single(crate::distr::hinted(&items, h))),
+			} {
 				Some((Some(v), _)) => v.to_string(),
 				Some((None, _)) => "none".into(),
 				None => "panic".into(),
